@@ -227,8 +227,9 @@ func renderNodeWithContext(ctx VueContext, w io.Writer, node *html.Node, indent 
 		// written without indentation or added line breaks.
 		if tagName == "pre" || tagName == "textarea" {
 			_, _ = w.Write([]byte(spaces + "<" + tagName + renderAttrs(node.Attr) + ">"))
-			// A parser drops one newline right after the start tag; keep the content's own.
-			if firstChild != nil && firstChild.Type == html.TextNode && strings.HasPrefix(firstChild.Data, "\n") {
+			// A parser drops one line break (a carriage return, then a line feed) right after
+			// the start tag; keep the content's own.
+			if firstChild != nil && firstChild.Type == html.TextNode && (strings.HasPrefix(firstChild.Data, "\n") || strings.HasPrefix(firstChild.Data, "\r")) {
 				_, _ = w.Write([]byte("\n"))
 			}
 			for c := firstChild; c != nil; c = c.NextSibling {
